@@ -223,6 +223,10 @@ pub struct BuilderConfig {
     /// mtimes): each entry must still carry the digest/content it had when it was added
     #[serde(default)]
     pub reuse_source: bool,
+    /// hand the source date to the builder as a chrono DateTime in this fixed offset (seconds
+    /// east of UTC) instead of as plain seconds; the instant is the same
+    #[serde(default)]
+    pub source_date_zone: Option<i32>,
 }
 
 impl BuilderConfig {
@@ -252,6 +256,7 @@ impl BuilderConfig {
             signer: None,
             force_large: false,
             reuse_source: false,
+            source_date_zone: None,
         }
     }
 
@@ -434,7 +439,13 @@ fn build_in(
         b = b.build_host(x);
     }
     if let Some(t) = cfg.source_date {
-        b = b.source_date(t);
+        b = match cfg.source_date_zone.and_then(chrono::FixedOffset::east_opt) {
+            Some(tz) => {
+                use chrono::TimeZone;
+                b.source_date(tz.timestamp_opt(t as i64, 0).single().expect("valid instant"))
+            }
+            None => b.source_date(t),
+        };
     }
     if let Some(c) = make_compression(&cfg.compression) {
         b = b.compression(c);
@@ -786,6 +797,7 @@ pub fn config_any(p: CfgParams) -> BoxedStrategy<BuilderConfig> {
                     signer,
                     force_large,
                     reuse_source: false,
+                    source_date_zone: None,
                 }
             },
         )
